@@ -60,6 +60,33 @@ def run_impl(descr) -> Any:
         return [-1, EXN.get(type(e).__name__, 99)]
     rows: List[int] = []
     exn = 0
+    if descr.get("mode") == "lockstep":
+        # two live evaluations of the same query object consumed in lock-step (after a complete evaluation has filled
+        # the domain cache, which avoids the known C03-a interference): each must behave as a single evaluation does
+        ent = entity(x, x >= 1)
+        q = an(ent, quantification=c) if c is not None else an(ent)
+        try:
+            list(q.evaluate())
+        except Exception:  # noqa
+            pass
+        outs = []
+        its = [iter(q.evaluate()), iter(q.evaluate())]
+        state = [[[], 0], [[], 0]]
+        live = [True, True]
+        while any(live):
+            for k in (0, 1):
+                if not live[k]:
+                    continue
+                try:
+                    state[k][0].append(next(its[k]))
+                except StopIteration:
+                    live[k] = False
+                except Exception as e:  # noqa
+                    state[k][1] = EXN.get(type(e).__name__, 99)
+                    live[k] = False
+        if state[0] != state[1]:
+            return [[-98], 98]
+        return state[0]
     try:
         ent = entity(x, x >= 1) if shape == "entity" else set_of([x], x >= 1)
         q = an(ent, quantification=c) if c is not None else an(ent)
@@ -103,6 +130,8 @@ def gen_cases(tier: str, seed: int) -> List[dict]:
     for d in out:
         if rng.chance(0.1):
             extra.append(dict(d, shape="setof"))
+        if d["q"] == "an" and d["k"] is not None and rng.chance(0.06):
+            extra.append(dict(d, mode="lockstep"))
     return out + extra
 
 
@@ -117,7 +146,7 @@ def run(tier: str, seed: int, replay=None) -> int:
     rep.assume = ["CPython generator protocol: a generator that raises has yielded exactly the rows before the raise",
                   "rows come from let(int, [1..n]) with condition x >= 1: the child query itself is C01's concern"]
     rep.rule = ("exhaustive over n in 0..N and every Exactly/AtLeast/AtMost/Range constraint with bounds lo..hi (quick N=8,-1..9; thorough N=30,-2..32), "
-                "plus the(...) and unconstrained an(...), plus a seeded 10% re-run through set_of; distinct = distinct (constraint, n, shape); "
+                "plus the(...) and unconstrained an(...), plus a seeded 10% re-run through set_of and a seeded 6% re-run as two evaluations of one query object consumed in lock-step (each must behave as the single evaluation the model describes); distinct = distinct (constraint, n, shape); "
                 "non-trivial = every case (each has a different expected outcome)")
     # Spec must always build (independent of the source)
     ok_spec, log = core.coq_make(["Base/Sx.vo", "Eql/QuantSpec.vo"])
@@ -125,6 +154,8 @@ def run(tier: str, seed: int, replay=None) -> int:
     model_ok = core.standard_proof_steps(
         rep, PROP, ["Props/C09.vo"],
         regen=[("Gen/Quant.v", lambda: t_quant.translate(str(core.REPO)), core.COQ / "Gen" / "Quant.v")])
+    if model_ok and tier == "thorough":
+        core.coqchk(rep, PROP)
     descrs = [replay["case"]] if replay else gen_cases(tier, seed)
     cases = [make_case(d) for d in descrs]
     pairs = [(c.term, core.sx(c.impl)) for c in cases]
